@@ -26,7 +26,7 @@ def hv(ident):
 PKEEP = ["C18", "C07", "C08", "C10"]      # the observer never drops or re-addresses an instruction: the stream stays the input's sequence
 
 
-@scenario("validaddr:observe", VO, PKEEP, inlined=["ValidAddrRange.__init__/is_in_range", "HexType.__init__"],
+@scenario("validaddr:observe", VO, PKEEP + ["C09"], inlined=["ValidAddrRange.__init__/is_in_range", "HexType.__init__"],
           doc="tagging decision over symbolic hexadecimal bounds and targets")
 def observe():
     ensure()
@@ -61,7 +61,7 @@ def observe():
                     for i, p in enumerate(run.paths):
                         base = f"observe_instruction:{sid}:p{i}"
                         if p.kind != "ret":
-                            obs.append(simple_ob(base + ":EXC", VO, "EXC", "no exception", False, PKEEP, detail=repr(p.value), witness=sid))
+                            obs.append(simple_ob(base + ":EXC", VO, "EXC", "no exception", False, PKEEP + ["C09"], detail=repr(p.value), witness=sid))
                             continue
                         res, inst = p.value
                         if res is None or not isinstance(res, J.gd.Instruction):
@@ -78,7 +78,7 @@ def observe():
                             is_branch = isinstance(mval, str) and (mval.startswith("call") or mval.startswith("j"))
                             obs.append(simple_ob(base + ":POST-only-branches", VO, "POST",
                                                  "only a direct branch (call*/j* with a hexadecimal target, no '*') is ever tagged",
-                                                 is_branch and direct, P, detail=f"{mname} {opcat}", witness=sid))
+                                                 is_branch and direct, P + ["C09"], detail=f"{mname} {opcat}", witness=sid))
                             obs.append(z3_ob(base + ":POST-only-in-range", VO, "POST",
                                              "tagged only if hexval(min) <= hexval(target) <= hexval(max)", p.pc, inrange, P))
                         else:
